@@ -262,7 +262,7 @@ PROPS["C17"] = {
     ],
     "assumptions": ["stmts_from_program_with_prefix as a whole (its statement loop, module recursion, include / external-module loading) is not under contract: its three declaration arms and process_use_statement are (unit use_tables, rule X4)"],
     "not_covered": [
-        "the statement loop / module recursion of stmts_from_program_with_prefix (that each declaration reaches its arm with the right module prefix), the parser lowering that produces ProgramStatement, and type-level privacy in typing.rs",
+        "stmts_from_program_with_prefix: six arms are under contract (FnDefinition, TypeAlias, TypeDeclaration, UseStatement via process_use_statement, ModuleDefinition: the nested list is processed once under prefix + [name]; GlobalStatement: every binder of a module-level statement is filed under the prefix) -- the dispatch loop itself, the Import arm, the part of the UseStatement arm that loads an external module file, the parser lowering that produces ProgramStatement, and type-level privacy in typing.rs are not",
         "convert_expr apart from its Let / LetRec / Lambda / Match arms (those four are under contract, unit resolve_walk, relative to the induction hypothesis that a recursive conversion restores module context and scopes; the other ~24 arms, which only recurse, are not) and pass 1 (collect_defined_names)",
         "'every accepted reference resolves to the unique definition its module path denotes': only the resolved-path/alias-target relation of convert_qualified_var and resolve_qualified_path is proved",
     ],
